@@ -18,8 +18,7 @@ LAWS = [
     "law_aead_shapes: ciphertext as long as the plaintext, 16-byte tag",
     "law_aead_authentic (functional form): decrypt(k, n, c, t) = Some p only if encrypt(k, n, p) = (c, t)",
     "law_aead_plain_by_ct: the plaintext returned by decrypt depends on key, nonce and ciphertext only (used by C12_emip3_rejects_modified_tag only)",
-    "law_base32_roundtrip: bech32 crate — from_base32(to_base32(bytes)) = bytes",
-    "law_bech32_roundtrip: bech32 crate — for a non-empty lower-case printable HRP, encode succeeds and decode(encode(hrp, d)) = (hrp, d)",
+    "law_hash_shape: Blake2b-224 (uninterpreted function) returns 28 bytes (only C12_pubkey_hash uses it)",
 ]
 
 CFG = {
@@ -28,18 +27,20 @@ CFG = {
                   "keys / messages / paths / passwords / salts / nonces / plaintexts and for EVERY instance of the primitives that satisfies a named list of "
                   "laws: witnesses sign exactly the hash bytes and verify under the key they carry (vkey, Icarus, Daedalus; chain code and attributes passed "
                   "through), 128-byte xprv layout and round trip with a strict length check, bytes / hex / bech32 round trips of all seven key and signature "
-                  "types plus hash types, HRP mismatch is an error, whole soft derivation paths commute with to_public, hardened-from-public refused, BIP39 roots "
+                  "types plus hash types and HRP mismatch = error (both now WITHOUT any bech32 premise: concrete model of the bech32 crate), serialized witnesses (C01 schemas) decode to the verifying key and signature, PublicKey::hash, whole soft derivation paths commute with to_public, hardened-from-public refused, BIP39 roots "
                   "are valid keys, EMIP-3 container salt|nonce|tag|ciphertext round-trips for all valid parameter lengths and decryption accepts only byte-exact "
                   "outputs of encryption. The cryptography itself (Ed25519, BIP32-Ed25519, PBKDF2, ChaCha20-Poly1305, bech32) is NOT proved: it enters as "
                   "explicit law premises visible in coq/Props/C12.v, which the correspondence run only TESTS on the real crates. The model is tied to the "
                   "compiled wrappers by an exact differential run in which the model's primitives are tables of calls made to the real crates.",
-    "level_note": "Trusted / assumed: Coq kernel; the hand-written model of the wrappers (tied by correspondence on generated cases only); the 14 law premises about "
-                  "cryptoxide / ed25519-bip32 / bech32 listed under `assumptions` (shown jointly satisfiable by a toy instance, C12_laws_satisfiable; exercised, not "
+    "level_note": "Trusted / assumed: Coq kernel; the hand-written model of the wrappers (tied by correspondence on generated cases only); the 12 law premises about "
+                  "cryptoxide / ed25519-bip32 listed under `assumptions` (bech32 is NO LONGER a premise: its fields are instantiated with the executable model of the bech32 "
+                  "crate, Addr/Bech32.v, whose round-trip laws are proved in Addr/Bech32Proofs.v and whose text is compared exactly with the library's; what remains trusted "
+                  "there is that model's transcription of the crate) (shown jointly satisfiable by a toy instance, C12_laws_satisfiable; exercised, not "
                   "proved, on the real crates); 'a modified container / another password is rejected' is proved only in the functional form "
                   "(accepted => exact encryption image; modified tag => Err) — computational unforgeability is a labelled per-instance premise of "
                   "C12_emip3_rejects_modified; 'verification fails under another key or message' is tested, not proved; the hook H12 pass-throughs; extraction and "
                   "OCaml/Rust glue; harness built with debug assertions. No axioms.",
-    "theorems": ["C12_laws_satisfiable", "C12_bech32_laws_proved", "C12_witness_signs_hash", "C12_witness_bytes_sign_hash", "C12_xprv128_roundtrip", "C12_xprv128_unfixed_refuted",
+    "theorems": ["C12_laws_satisfiable", "C12_bech32_laws_proved", "C12_witness_signs_hash", "C12_witness_bytes_sign_hash", "C12_pubkey_hash", "C12_xprv128_roundtrip", "C12_xprv128_unfixed_refuted",
                  "C12_key_encodings_roundtrip", "C12_key_encodings_roundtrip_any_codec", "C12_hash_bech32_unfixed_refuted", "C12_hrp_checked", "C12_hrp_checked_any_codec", "C12_soft_derivation_commutes",
                  "C12_hardened_from_public_refused", "C12_bip39_root_valid", "C12_emip3_roundtrip", "C12_emip3_empty_plaintext_unfixed_refuted",
                  "C12_emip3_accepts_only_encrypt_images", "C12_emip3_rejects_modified", "C12_emip3_rejects_modified_tag",
@@ -55,11 +56,12 @@ CFG = {
             "message x other key, scalars at and beyond 2^255; wit = vkey / Icarus / Daedalus x Byron attributes (derivation path None/0..256 bytes, magic at CBOR "
             "width boundaries); derive = paths of depth 0..6 (all soft, all hard, mixed; CIP-1852); bip39 entropy 0..64 bytes; enc3/dec3 = valid parameters with "
             "plaintext lengths 0..200, each parameter of wrong length / malformed hex / upper case, genuine containers with each field damaged, fields reordered, "
-            "truncated, extended, other password, lengths 0..76; pubderive = Bip32PublicKey paths from arbitrary xpubs; seq:<pattern> = SEQUENCES of such calls made one after the other in the one harness thread with deliberately related arguments (same key part / other chain code, same chain code / other key, same parent / other index, same index / other parent, repeats, wallet-like public scans interleaved with private derivation, one key material used as several key kinds, one bech32 payload under several HRPs, encrypt/decrypt under alternating passwords, salts, nonces): every step is compared with the model of that step ALONE, so any dependence on earlier calls is a disagreement. Each case line carries the table of external-primitive calls (made through the H12 pass-throughs) "
+            "truncated, extended, other password, lengths 0..76; pubderive = Bip32PublicKey paths from arbitrary xpubs; seq:<pattern> = SEQUENCES of such calls made one after the other in the one harness thread with deliberately related arguments (same key part / other chain code, same chain code / other key, same parent / other index, same index / other parent, repeats, wallet-like public scans interleaved with private derivation, one key material used as several key kinds, one bech32 payload under several HRPs, encrypt/decrypt under alternating passwords, salts, nonces): every step is compared with the model of that step ALONE, so any dependence on earlier calls is a disagreement. Each case line carries the table of external CRYPTOGRAPHIC primitive calls (made through the H12 pass-throughs); bech32 and hex texts and the witness CBOR are computed by the model itself "
             "that instantiates the model's primitives. Non-trivial = distinct case line whose model observation starts with an accepted value.",
     "trusted_base": [
-        "external crates, assumed through explicit law premises and exercised (tested) by the run: cryptoxide 0.4.4 (ed25519, pbkdf2, hmac, sha2, chacha20poly1305), "
-        "ed25519-bip32 0.4.3, bech32 0.7.3, hex 0.4",
+        "external crates, assumed through explicit law premises and exercised (tested) by the run: cryptoxide 0.4.4 (ed25519, pbkdf2, hmac, sha2, chacha20poly1305, blake2b), "
+        "ed25519-bip32 0.4.3; hex 0.4 and bech32 0.7.3 are MODELLED concretely (Base/Hex.v; Addr/Bech32.v with proved laws) and compared text-for-text, not assumed",
+        "witness serialization uses the C01 schemas (Ledger/Schemas.v Vkeywitness / BootstrapWitness) and the generic encoder/decoder of Codec/Schema.v (round trip proved by C01)",
         "hook H12 (rust/src/verif_hooks_c12.rs, cfg csl_verif): pass-throughs to those crates used to tabulate the primitives independently of the wrappers",
         "concrete transcriptions of two external checks: XPrv::from_bytes_verified bit test (xprv_bits_ok) and scalarmult_base's a[31] <= 127 (ext_scalar_ok)",
         "Byron address parsing (ByronAddress::from_bytes) is C11's; C12 models only Attributes::serialize (what ByronAddress::attributes returns)",
